@@ -728,7 +728,7 @@ func (cs *Contracts) loadFile(file string) error {
 			}
 		case "after":
 			// after call N: expr
-			m := regexp.MustCompile(`^call\s+([A-Za-z0-9_#]+)\s*:\s*(.*)$`).FindStringSubmatch(rest)
+			m := regexp.MustCompile(`^call\s+([A-Za-z0-9_#*]+)\s*:\s*(.*)$`).FindStringSubmatch(rest)
 			if m == nil {
 				return fail(fmt.Errorf("expected 'after call N: expr'"))
 			}
